@@ -307,3 +307,60 @@ func VerifyPlacementSignatures(cid, msg, sigs) (ok)
     invariant 0 <= counter && counter >= entry(counter)
 
 @*/
+
+/*@
+module estimations
+props C20
+use common core
+dialect neovm
+
+// C20: container size estimations are accepted only for live containers, from nodes of the PREVIOUS epoch's network
+// map (netmap.snapshot(1)), witnessed by the node's key; the estimation is stored under cnr<epoch><cid><ripemd(key)[:10]>.
+pure xk(id Bytes) Bytes = "x" ++ id
+pure blob(s Store, id Bytes) Bytes = deser_Container(s.get(xk(id))).Value
+pure live(s Store, id Bytes) Bool = s.has(xk(id)) && len(blob(s, id)) != 0
+pure snap(k Int) L_StorageNode = unbox_L_StorageNode(cres("snapshot", k))
+pure ekey(epoch Int, cid Bytes, key Bytes) Bytes = "cnr" ++ i2b(epoch) ++ cid ++ ripemd160(key)[0:10]
+
+func getContainer(ctx, cid) (r)
+  pure
+  ensures store.has(xk(cid)) ==> r == deser_Container(store.get(xk(cid)))
+  ensures !store.has(xk(cid)) ==> len(r.Value) == 0
+
+func ownerFromBinaryContainer(container) (r)
+  pure
+  ensures !isnil(r)
+
+func getOwnerByID(ctx, cid) (r)
+  pure
+  ensures isnil(r) == !live(store, cid)
+
+func estimationKey(epoch, cid, key) (r)
+  pure
+  ensures [C20] r == ekey(epoch, cid, key) && !isnil(r)
+
+// asks Netmap for the map of the previous epoch (diff 1) and looks for the key at bytes 2..35 of each node
+func isStorageNode(ctx, key) (r)
+  ensures store == old(store) && notifs == old(notifs)
+  ensures [C20] xcalls("snapshot").len == old(xcalls("snapshot")).len + 1
+  ensures [C20] old(store).has("netmapScriptHash") ==> xcalls("snapshot")[old(xcalls("snapshot")).len] == ev_call_snapshot(old(store).get("netmapScriptHash"), "snapshot", 1)
+  ensures [C20] r ==> exists i Int :: 0 <= i && i < len(snap(old(xcalls("snapshot")).len)) && snap(old(xcalls("snapshot")).len)[i].Info[2:35] == key
+  ensures [C20] !r ==> forall i Int {snap(old(xcalls("snapshot")).len)[i]} :: 0 <= i && i < len(snap(old(xcalls("snapshot")).len)) ==> snap(old(xcalls("snapshot")).len)[i].Info[2:35] != key
+  loop 0
+    invariant store == old(store) && notifs == old(notifs) && xcalls("snapshot").len == old(xcalls("snapshot")).len + 1
+    invariant snapshot == snap(old(xcalls("snapshot")).len)
+    invariant forall j Int {snapshot[j]} :: 0 <= j && j < i ==> snapshot[j].Info[2:35] != key
+    invariant forall j Int {xcalls("snapshot")[j]} :: 0 <= j && j < xcalls("snapshot").len ==> xcalls("snapshot")[j] == entry(xcalls("snapshot"))[j]
+
+func updateEstimations(ctx, epoch, cid, pub, isUpdate)
+  trusted
+  ensures notifs == old(notifs)
+  ensures forall k Bytes {store.opt(k)} :: !prefix("est", k) && !prefix("cnr", k) ==> store.opt(k) == old(store).opt(k)
+
+func PutContainerSize(epoch, cid, usedSize, pubKey)
+  ensures [C20] live(old(store), cid) && W(pubKey)
+  ensures [C20] xcalls("snapshot").len == old(xcalls("snapshot")).len + 1
+  ensures [C20] old(store).has("netmapScriptHash") ==> xcalls("snapshot")[old(xcalls("snapshot")).len] == ev_call_snapshot(old(store).get("netmapScriptHash"), "snapshot", 1)
+  ensures [C20] exists i Int :: 0 <= i && i < len(snap(old(xcalls("snapshot")).len)) && snap(old(xcalls("snapshot")).len)[i].Info[2:35] == pubKey
+  ensures [C20] forall k Bytes {store.opt(k)} :: !prefix("est", k) && !prefix("cnr", k) ==> store.opt(k) == old(store).opt(k)
+@*/
